@@ -784,6 +784,11 @@ def judge_value_of(cirq, entries, e, recursive=True, envs=None, only_exception=N
         want = sympy.sympify(e).subs(sym_dict(entries), simultaneous=True)
     if want is None:
         return None if err == 'RecursionError' else ('no-loop-detected', f'{label} on a cyclic resolver returned {got!r} / raised {err}')
+    try:
+        if want.has(sympy.zoo) or want.has(sympy.nan) or want.has(sympy.oo):
+            return None         # the substituted expression has no value (e.g. 1/c at c = 0): nothing to compare (inf, nan or an error are all fine)
+    except Exception:
+        pass
     if err is not None:
         return (err, f'{label} raised {err}, substitution gives {want}')
     envs = envs or [{s: Fraction(3, 4) for s in GEN_SYMS + INT_SYMS + POS_SYMS}]
